@@ -144,6 +144,28 @@ theorem pick_cutoff_sum_zero (fdis : ℝ) (m m0 b : List ℝ)
           simp [fracDiss, cutoff, pick, Num.real_zero, ha, h0', ihr]
         · simp [fracDiss, cutoff, pick, Num.real_zero, ha, ihr]
 
+/-- a boolean-mask selection only contains elements of the vector it selects from -/
+theorem pick_mem (keep : Bool) (m0 v : List ℝ) : ∀ x ∈ pick keep m0 v, x ∈ v := by
+  induction m0 generalizing v with
+  | nil => intro x hx; simp [pick] at hx
+  | cons a as ih =>
+    cases v with
+    | nil => intro x hx; simp [pick] at hx
+    | cons b bs =>
+      intro x hx
+      simp only [pick] at hx
+      split at hx
+      · rcases List.mem_cons.mp hx with e | e
+        · simp [e]
+        · exact List.mem_cons_of_mem _ (ih bs x e)
+      · exact List.mem_cons_of_mem _ (ih bs x hx)
+
+theorem sum_zero_of_all_zero (l : List ℝ) (h : ∀ x ∈ l, x = 0) : l.sum = 0 := by
+  induction l with
+  | nil => rfl
+  | cons a as ih =>
+    rw [List.sum_cons, h a (by simp), ih (fun x hx => h x (by simp [hx]))]; simp
+
 -- ---------------------------------------------------------------- biodegradation lag
 
 theorem bioRate_length (lag : Bool) (kbio tbio : List ℝ) (t : ℝ) :
